@@ -61,8 +61,8 @@ prop("C12", lambda t, s: [("mc", "NackAlg", n(t, "McNack", "McNackThorough")), (
 prop("C13", lambda t, s: [("mc", "TwccAlg", n(t, "McTwcc", "McTwccThorough")), ("drive", "twccfuzz", n(t, 3000, 100000)), ("drive", "fuzz", n(t, 400, 10000))],
      exhaustive_note="McTwcc enumerates every status sequence of length 0..5 (thorough: 0..7) over {not received, small, large} in every chunking (run-length splits, 1-bit and 2-bit vectors, run-length overshoot 1 and 8191), plus two-run sequences with run lengths straddling 7 and 14 in six systematic chunkings")
 
-prop("C14", lambda t, s: [("mc", "RembAlg", n(t, "McRemb", "McRembThorough")), ("mc", "Mc", "McWireRemb"), ("drive", "rembrand", n(t, 300, 20000))],
-     exhaustive_note="McRemb steps the decoder loop on 53 structured mantissas x 5 exponents and the encoder loop on 128 boundary floats, and emits the complete 2^18 mantissa table at exponent 0 (thorough: at 0, 1, 31, 62, 63) plus the structured rows at 6 (thorough: all 64) exponents; the scaling lemma RowOK extends the exponent-0 table to the other exponents")
+prop("C14", lambda t, s: [("mc", "RembAlg", n(t, "McRemb", "McRembThorough")), ("mc", "Mc", "McWireRemb"), ("drive", "rembrand", n(t, 300, 20000)), ("drive", "sweeps", n(t, 65537, 1))],
+     exhaustive_note="McRemb steps the decoder loop on 53 structured mantissas x 5 exponents and the encoder loop on 128 boundary floats, and emits the complete 2^18 mantissa table at exponent 0 (thorough: at 0, 1, 31, 62, 63) plus the structured rows at 6 (thorough: all 64) exponents; the scaling lemma RowOK extends the exponent-0 table to the other exponents; the encoder is covered by the complete table of the 2^18 integers (thorough: also the 2^17 leading-18-bit values at one exponent) plus Go sweeps of the lemmas EncLemmas over all floats of each range (exhaustive in the thorough tier, every 4097th in the quick tier)")
 
 prop("C15", lambda t, s: [("mc", "XrWalk", n(t, "McXr", "McXrThorough")), ("mc", "Mc", "McWireXr"), ("drive", "xrrand", n(t, 1500, 60000)), ("drive", "bigframes", n(t, 0, 1))],
      exhaustive_note="McXr enumerates every sequence of 0..2 (thorough: 0..3) report blocks over 17 block choices (the 7 defined kinds, unknown types 0, 8, 255 with different contents, empty and longer lists, other flag combinations) and walks each encoding with an independent block walker; McWireXr sweeps the XR star domain")
@@ -81,6 +81,6 @@ prop("C18", lambda t, s: [("mc", "ConcurrencyMc", "McConc"), ("mc_broken", "Conc
 # vacuity guard: the least number of distinct behaviours each configuration must emit for replay
 MIN_BEHAVIOURS = {"McWirePairs": 1100, "McFaultsDev": 400, "McWire": 900, "McFaults": 3000, "McFaults2": 20000, "McLimits": 80, "McVariants": 250, "McForeign": 800, "McDispatch": 3000,
                   "McDispatchAll": 30000, "McDgram": 600, "McDgram3": 10000, "McCompound": 2000, "McCompound4": 30000, "McNack": 5000,
-                  "McNackThorough": 15000, "McTwcc": 7000, "McTwccThorough": 50000, "McRemb": 1100, "McRembThorough": 5000, "McWireRemb": 100,
+                  "McNackThorough": 15000, "McTwcc": 7000, "McTwccThorough": 50000, "McRemb": 2100, "McRembThorough": 5000, "McWireRemb": 100,
                   "McXr": 300, "McXrThorough": 4000, "McWireXr": 180, "McUnits": 200, "McUnitsThorough": 1500, "McWireUnits": 250,
                   "McHist": 5000, "McHist4": 20000}
